@@ -61,6 +61,7 @@ def json_conf(nq, nt, rule, per_shard=40):
 
 PROPS = {
     "C18": {
+        "mismatch_is_input": True,
         "n": {"quick": 4000, "thorough": 200000},
         "per_shard": 250,
         "run_header": HDR % "RunC18",
@@ -77,6 +78,7 @@ PROPS = {
         "assumptions": ["callbacks/aggregates are called on lists not mutated concurrently"],
     },
     "C07": {
+        "mismatch_is_input": True,
         "n": {"quick": 3000, "thorough": 150000},
         "per_shard": 200,
         "run_header": HDR % "RunPure",
@@ -90,6 +92,7 @@ PROPS = {
         "assumptions": ["operands are acyclic value trees with distinct object keys (wfb)"],
     },
     "C14": {
+        "mismatch_is_input": True,
         "n": {"quick": 1500, "thorough": 60000},
         "per_shard": 100,
         "run_header": HDR % "RunPure",
@@ -102,6 +105,7 @@ PROPS = {
         "assumptions": ["callbacks are pure and do not mutate the container being iterated"],
     },
     "C17": {
+        "mismatch_is_input": True,
         "n": {"quick": 3000, "thorough": 150000},
         "per_shard": 250,
         "run_header": HDR % "RunPure",
